@@ -96,7 +96,7 @@ def run(tier):
       nontrivial=lambda c, o: bool(o.get('exhaustive', {}).get('designs')) or bool(o.get('greedy', {}).get('designs')),
       trusted_extra=['props/C04.v proves the object-level discipline (reuse + deep copies) on a hand-written store model; '
                      'its tie to the code is the executed oracle'],
-      assumptions=['numeric kernels are deterministic: a fresh object on the same series reproduces the values exactly'], gen_targets=searchfam.GEN_TARGETS_EXH)
+      assumptions=['numeric kernels are deterministic: a fresh object on the same series reproduces the values exactly'], gen_targets=searchfam.GEN_TARGETS_ALL)
 
 
 def replay(data):
